@@ -235,7 +235,9 @@ func checkReadStream(c *Ctx, prop string) {
 	}
 	c.Floor("successful exits of the stream reader", n, 3)
 	c.flowMay(x, prop+"/stream-reader/decrypt-args", "stream reader: decryption gets the connection's reader and the accepted label", func(e *gea.Effect) bool { return e.Class == "CALL:Memberlist.decryptRemoteState" },
-		func(e *gea.Effect) (bool, string) { return e.Detail["arg1"] == "streamLabel", "label argument " + e.Detail["arg1"] })
+		func(e *gea.Effect) (bool, string) {
+			return e.Detail["arg1"] == "streamLabel", "label argument " + e.Detail["arg1"]
+		})
 	// decryptRemoteState: keys, ciphertext and associated data
 	dr := c.MustFunc("Memberlist.decryptRemoteState")
 	xd := c.flow(dr, map[string]string{})
